@@ -61,7 +61,14 @@ def gen_json(rng, depth):
         if k == 0:
             return rng.choice([0, 1, -1, 42, (1 << 53), -(1 << 40), 12345678901234567890])
         if k == 1:
-            return rng.choice([1.5, -0.25, 1e21, 1e-7, 3.141592653589793, 1.7976931348623157e308, 5e-324, 123456789.125, -2.5e-3])
+            if rng.chance(1, 2):
+                # any finite double: both signs, all digit counts and exponent widths
+                while True:
+                    f = struct.unpack("<d", struct.pack("<Q", rng.below(1 << 64)))[0]
+                    if f == f and f not in (float("inf"), float("-inf")):
+                        return f
+            return rng.choice([1.5, -0.25, 1e21, 1e-7, 3.141592653589793, 1.7976931348623157e308, 5e-324, 123456789.125, -2.5e-3,
+                               -1.2345678901234567e-300, -9.87654321098765e+250, 2.2250738585072014e-308])
         if k == 2:
             return rng.choice([True, False, None])
         n = rng.range(0, 12)
